@@ -325,12 +325,20 @@ pub fn suite_run(ctx: &mut Ctx, suite: &str, n: u64) {
     }
 }
 
+/// the model's answer to a run request: what comes before the `posterr` marker, and what comes after it
+pub fn split_post(m: Vec<String>) -> (Vec<String>, Vec<String>) {
+    match m.iter().position(|l| l == "posterr") {
+        Some(i) => (m[..i].to_vec(), m[i + 1..].iter().filter(|l| !l.starts_with("rng ")).cloned().collect()),
+        None => (m, vec![]),
+    }
+}
+
 pub fn judge_run_case(ctx: &mut Ctx, suite: &str, cs: u64, case: &Case, src: &str, printed: Option<&Printed>) {
     let prop = ctx.prop.clone();
     ctx.tick(&describe_case(case, src));
     let run = imp::run_dynamic(case, src);
     let req = imp::enc_run_request(src, &case.sigs, case.own_wo, &run.script, &run.epochs, case.cap, false);
-    let m = ctx.model.ask(&req);
+    let (m, m_tail) = split_post(ctx.model.ask(&req));
     ctx.report.evaluations += 1;
     let key = fnv(&format!("{src}|{:?}|{:?}|{}", case.sigs, case.fault, case.drv_seed));
     ctx.report.distinct.insert(key);
@@ -349,6 +357,20 @@ pub fn judge_run_case(ctx: &mut Ctx, suite: &str, cs: u64, case: &Case, src: &st
     let (pi, pm) = (project(&prop, &run.lines), project(&prop, &m));
     if pi != pm {
         add_finding(ctx, "model", suite, cs, first_diff(&pi, &pm), text.clone(), &run.lines, &m);
+    } else if !run.tail_lines.is_empty() || !m_tail.is_empty() {
+        // behind the first error item: the run continued after errors of the IO step (the state the model returns
+        // for those is the code's); compared on the same observables
+        ctx.report.bump("continued-after-io-error");
+        let (ti, tm) = (project(&prop, &run.tail_lines), project(&prop, &m_tail));
+        if ti != tm {
+            let mut il = run.lines.clone();
+            il.push("# --- behind the first error item ---".into());
+            il.extend(run.tail_lines.iter().cloned());
+            let mut ml = m.clone();
+            ml.push("# --- behind the first error item ---".into());
+            ml.extend(m_tail.iter().cloned());
+            add_finding(ctx, "model", suite, cs, format!("behind the first error item: {}", first_diff(&ti, &tm)), text.clone(), &il, &ml);
+        }
     }
     // the property judged on the implementation's own trace
     let declared = declared_of(case);
@@ -1071,7 +1093,7 @@ pub fn suite_layout(ctx: &mut Ctx, suite: &str, n: u64) {
         }
         // model tie for the variant
         let req = imp::enc_run_request(&b.text, &case.sigs, case.own_wo, &rb.script, &rb.epochs, case.cap, false);
-        let m = ctx.model.ask(&req);
+        let m = split_post(ctx.model.ask(&req)).0;
         let (pi, pm) = (project("C20", &rb.lines), project("C20", &m));
         if pi != pm {
             add_finding(ctx, "model", suite, cs, first_diff(&pi, &pm), text, &rb.lines, &m);
@@ -1380,7 +1402,7 @@ pub fn suite_mask(ctx: &mut Ctx, suite: &str) {
             SigSpec { name: "Q".into(), bits, dir: Dir::Out, default: None },
         ];
         let req = imp::enc_run_request(&src, &sigs, false, &[], &[], 1000, true);
-        let m = ctx.model.ask(&req);
+        let m = split_post(ctx.model.ask(&req)).0;
         let mrows: Vec<&String> = m.iter().filter(|l| l.starts_with("sitem ") && item_kind(l) == "row").collect();
         for (k, v) in vals.iter().enumerate() {
             ctx.report.evaluations += 2;
@@ -1545,7 +1567,7 @@ pub fn judge_c15_case(ctx: &mut Ctx, suite: &str, cs: u64, case: &Case, src: &st
     // (d) static iteration
     let Some((sl, sepochs, spanic)) = imp::run_static_case(case, src) else { return };
     let req = imp::enc_run_request(src, &case.sigs, false, &[], &sepochs, case.cap, true);
-    let m = ctx.model.ask(&req);
+    let m = split_post(ctx.model.ask(&req)).0;
     let ms: Vec<String> = significant(&m).into_iter().filter(|l| l.starts_with("static") || l.starts_with("sitem")).collect();
     let is_static = sl.first().map(|l| l == "static ok").unwrap_or(false);
     ctx.report.bump(if is_static { "static" } else { "not-static" });
